@@ -64,6 +64,9 @@ func c13Text(r *fw.Rand) string {
 // variables every template case starts with: containers that are reachable under several names
 const c13Prelude = "sa = [1, 2]; sd = {'k': 1}; sb = sa; sn = [sa, 0]; sm = {'in': sd}; se = []"
 
+// c13TrailingRawOK: the text being encoded is followed by the closing delimiter (not by a hole).
+var c13TrailingRawOK = true
+
 // c13Encode writes text as a literal with delimiter q using the documented escapes.
 // ok=false when the text cannot be written with that delimiter (no escape for ` and 0x1E).
 func c13Encode(r *fw.Rand, text string, q rune) (string, bool) {
@@ -82,6 +85,10 @@ func c13Encode(r *fw.Rand, text string, q rune) (string, bool) {
 				if nx > 0x20 && !strings.ContainsRune("nrft\\'\"{}", nx) && nx != q && r.P(1, 3) {
 					raw = true
 				}
+			} else if template && c13TrailingRawOK && r.Bool() {
+				// last character of a template text: the delimiters of the two template styles are
+				// not escape characters, so the backslash stays a backslash and the template ends
+				raw = true
 			}
 			if raw {
 				sb.WriteString(`\`)
@@ -206,7 +213,9 @@ func c13Template(r *fw.Rand, depth int, maxHoles int) c13Tmpl {
 			}
 			seg += c
 		}
+		c13TrailingRawOK = i == n // a segment in front of a hole is followed by '{': there the backslash would escape it
 		enc, _ := c13Encode(r, seg, q)
+		c13TrailingRawOK = true
 		sb.WriteString(strings.TrimSuffix(strings.TrimPrefix(enc, string(q)), string(q)))
 		want.WriteString(seg)
 		if i == n {
